@@ -7,8 +7,8 @@ def evalSpec (ws : List String) (res : String) : Option (Option String) :=
   match SpecExtra.handle ws res with
   | some r => some r
   | none =>
-    let a := hexU64 (ws.getD 2 "0"); let b := hexU64 (ws.getD 3 "0"); let c := hexU64 (ws.getD 4 "0")
-    match DriverSpecOps.spec ws[0]! ws[1]! a b c with
+    let a := hexU64 (ws.getD 2 "0"); let b := hexU64 (ws.getD 3 "0"); let c := hexU64 (ws.getD 4 "0"); let d := hexU64 (ws.getD 5 "0")
+    match DriverSpecOps.spec ws[0]! ws[1]! a b c d with
     | none => none
     | some none => some none
     | some (some v) => some (some (toHex v))
